@@ -85,7 +85,7 @@ def run_seq(w, gi, idxs):
         if db != shadow:
             diff = [f"{t}: database {sorted(db[t].values(), key=repr)} != replayed {sorted(shadow[t].values(), key=repr)}" for t in db if db[t] != shadow[t]]
             return dict(status="fail", kind="replayed-rows-differ", events=events, broken=diff, unsat=unsat)
-        gv = HF.graph_vs_db(w, env, db)
+        gv = HF.graph_vs_db(w, env, db) if unsat is None else []     # a contradictory request has no defined graph to compare with
         if gv:
             return dict(status="fail", kind="graph-differs-from-database", events=events, broken=gv, unsat=unsat)
         return dict(status="ok", events=events, unsat=unsat, tables=len({e.split(" ")[1] for e in events}))
@@ -100,6 +100,9 @@ def descriptor(w, gi, idxs, r):
 
 
 # ----------------------------------------------------------------------------------------------- worker
+QUICK_LENGTH3 = ("selfref", "post_update")     # the mappings whose flushes take the per-state cycle path: length 3 (core catalogue) already in quick
+
+
 def _worker(job):
     H.quiet()
     t0 = time.time()
@@ -158,7 +161,7 @@ def plan(tier):
         w = HF.world(name)
         for gi in range(len(w.graphs)):
             out.append((name, gi, (1, 2), "all"))
-            if tier != "quick":
+            if tier != "quick" or name in QUICK_LENGTH3:
                 out.append((name, gi, (3,), "core"))
     return out
 
@@ -185,7 +188,8 @@ def run(run, tier, seed, args):
     for c in agg.get("crashes", [])[:5]:
         run.crashes.append(c)
     report(run, agg.get("failures", []))
-    lens = "1 and 2" if tier == "quick" else "1 and 2 (full catalogue) and 3 (core catalogue)"
+    lens = (f"1 and 2 (full catalogue), and 3 (core catalogue) for {list(QUICK_LENGTH3)}" if tier == "quick"
+            else "1 and 2 (full catalogue) and 3 (core catalogue) for every mapping")
     run.coverage.update(
         evaluations=agg["evaluations"],
         distinct_nontrivial=len(agg.get("streams", ())),
